@@ -213,6 +213,8 @@ func registerTimeIntrinsics() {
 		return p.freshVar("time.Since", 64, true)
 	}
 	intrinsics["time.Sleep"] = func(p *Path, th *Thread, fr *Frame, args []Value) Value {
+		n, _ := p.side["sleepCount"].(int)
+		p.side["sleepCount"] = n + 1
 		p.sched.yield(th)
 		return nil
 	}
